@@ -16,7 +16,7 @@ TS_RULES = {"ruleLatentDOM", "ruleLatentDOY", "ruleLatentDOW", "ruleLatentPOD", 
 QUICK_PODS = ["morning", "afternoon", "night", "last", "veryearlymorning", "noon"]
 MULTI_PODS = ["morning", "night", "veryearlymorning"]
 CLAUSES = {"C02": ["exc", "wf", "closure", "span"], "C01": ["exc", "wf"], "C15": ["frame"], "C12": ["frame"]}
-PER_RULE_QUICK = {"C02": 6, "C01": 3, "C15": 2, "C12": 2}
+PER_RULE_QUICK = {"C02": 5, "C01": 2, "C15": 2, "C12": 1}
 
 
 def wf_jobs(prop, tier, rules=None, cell=(2024, 2), lift=True, timeout=None, extra=None):
@@ -54,6 +54,7 @@ def wf_jobs(prop, tier, rules=None, cell=(2024, 2), lift=True, timeout=None, ext
                 "text_groups": ob.get("text_groups", [])}
         if tier == "quick":
             spec["textcap"] = 6
+            spec["prescap"] = 48
         years = None
         if name in ARITH:
             years = [2024] if tier == "quick" else [2023, 2024]
@@ -68,8 +69,10 @@ def wf_jobs(prop, tier, rules=None, cell=(2024, 2), lift=True, timeout=None, ext
         variants = [(spec, "")]
         if name in TS_RULES and prop in ("C01", "C02"):
             # rules that read the reference time: more year-month cells (after a leap day, year end)
-            variants = [(dict(spec, _cell=c), "/ts%d-%02d" % c) for c in ([(2024, 2), (2024, 3), (2023, 12)] if tier == "quick" else [(2024, 2), (2024, 3), (2023, 12), (2023, 2), (2024, 12), (2028, 6)])]
-        if name == "ruleTimeDuration":
+            variants = [(dict(spec, _cell=c), "/ts%d-%02d" % c) for c in ([(2024, 2), (2024, 3)] if tier == "quick" else [(2024, 2), (2024, 3), (2023, 12), (2023, 2), (2024, 12), (2028, 6)])]
+        if name == "ruleTimeDuration" and prop in ("C15", "C12"):
+            spec["maxdur"] = 3          # the frame clause does not depend on the amount
+        elif name == "ruleTimeDuration":
             variants = []
             for ui in range(6):
                 sp = dict(spec)
@@ -81,7 +84,7 @@ def wf_jobs(prop, tier, rules=None, cell=(2024, 2), lift=True, timeout=None, ext
             cell_v = spec_v.pop("_cell", None) or cell
             env = {"VQ_PROP": prop, "VQ_SPEC": json.dumps(spec_v), "VQ_Y": str(cell_v[0]), "VQ_M": str(cell_v[1])}
             bounds = ("arguments: every field present in the shape symbolic over the invariant WF (year 1880..2109{}), parts of day by index over the live table, "
-                      "regex groups by presence pattern and numeric range; ts: every instant of {}-{:02d}{}"
+                      "regex groups by presence pattern and numeric range; ts: every time of day on the first and on the last day of {}-{:02d}{}"
                       .format("" if not years else "; fully dated arguments in year-month cells {}, duration amount <= {}".format(spec["ym"], spec["maxdur"]), cell[0], cell[1],
                               "; parts of day restricted to {} table keys".format(len(spec["pods"])) if "pods" in spec else ""))
             jobs.append(Job("{}.WF[{}]{}".format(prop, key, suffix), "vq.harness.h_wf", "ob_step", env=env,
